@@ -45,7 +45,15 @@ def bc_for(rng, g, cls, allow_periodic=True, positive=False):
     return spec, dvals
 
 
-def flow_for(rng, g, m, spec, fams=('none', 'uniform', 'radial', 'stream-walls', 'stream-open', 'stream-walls', 'axis', 'axis', 'uniform-int')):
+def flow_for(rng, g, m, spec, fams=('none', 'uniform', 'radial', 'stream-walls', 'stream-open', 'stream-walls', 'axis', 'axis', 'uniform-int'), retry=False):
+    if retry:
+        # geometry-directed cases: insist on a flow family that exists on this grid class (1D radial grids only know q/r^p)
+        order = [str(f_) for f_ in rng.permutation([f_ for f_ in fams if f_ != 'none'])]
+        for f_ in order:
+            u_, fam_ = flow_for(rng, g, m, spec, fams=(f_,))
+            if fam_ != 'none':
+                return u_, fam_
+        return flow_for(rng, g, m, spec, fams=('none',))
     fam = str(rng.choice(list(fams)))
     per = spec['periodic']
     u = None
@@ -102,18 +110,27 @@ def run_case(case):
         # spurious sink or source in that cell leaves the admissible range immediately
         n = [int(rng.integers(1, 6 if nd < 3 else 4)) for _ in range(nd)]
         n[int(rng.integers(0, nd))] = 1
-    faces, meta = gen.gen_grid(rng, cls, nmin=1, nmax=case.get('nmax', 6 if nd < 3 else 4), family=fam, n=n)
+    gfam, gopts = gen.geo_opts(rng, case.get('geo'))
+    faces, meta = gen.gen_grid(rng, cls, nmin=1 if not case.get('geo') else 2, nmax=case.get('nmax', 6 if nd < 3 else 4), family=gfam or fam, n=n, opts=gopts)
     g = Geom(cls, faces)
     m = gen.build_mesh(pf, cls, faces)
     spec, dvals = bc_for(rng, g, cls, positive=thin or bool(case.get('intflow')))
     cov, maxerr, bad = {}, {}, []
+    if case.get('geo'):
+        cov['geo:' + case['geo']] = 1
     intflow = bool(case.get('intflow'))
-    u, flowfam = flow_for(rng, g, m, spec, fams=('uniform-int',) if intflow else ('uniform', 'axis', 'radial', 'axis', 'uniform-int') if thin else
-                          ('none', 'uniform', 'radial', 'stream-walls', 'stream-open', 'stream-walls', 'axis', 'axis', 'uniform-int'))
+    lsc = float(gopts.get('lscale') or 1.0)
+    gflow = g if lsc == 1.0 else Geom(cls, [np.asarray(f, dtype=float) / lsc if AXKIND[cls][k_] in ('len', 'rad') else f for k_, f in enumerate(faces)])
+    u, flowfam = flow_for(rng, gflow, m, spec, fams=('uniform-int',) if intflow else ('uniform', 'axis', 'radial', 'axis', 'uniform-int') if thin else
+                          ('none', 'uniform', 'radial', 'stream-walls', 'stream-open', 'stream-walls', 'axis', 'axis', 'uniform-int'), retry=bool(case.get('geo')))
     if thin:
         cov['thin_grid'] = 1
+    if lsc != 1.0:
+        u = [a * lsc for a in u]              # the same flow in the other length unit (velocities x L, diffusivities x L^2)
     dive = ops.discrete_div_error(m, g, u)
     D, _ = gen.face_arrays(rng, g, str(rng.choice(['sign', 'random'])), positive=True)
+    if lsc != 1.0:
+        D = [a * lsc ** 2 for a in D]
     if rng.random() < 0.3:
         D = [a * 10 ** rng.uniform(-4, 4, a.shape) for a in D]        # contrast up to 1e8
     if rng.random() < 0.15:
@@ -144,6 +161,19 @@ def run_case(case):
         if beta is not None:
             beta = beta / Tu
         cov['time_unit:%s' % ('small' if Tu < 1 else 'large')] = 1
+        # boundary rows written in the same magnitude as the interior rows (multiplying (a, b, c) of a side by a non-zero factor
+        # changes nothing, C03): keeps the system row-balanced, so that the range monitor stays decidable in these units
+        for sd_ in spec['sides'].values():
+            for nm_ in ('a', 'b', 'c'):
+                sd_[nm_] = sd_[nm_] / Tu
+    if case.get('geo'):
+        # same row balancing on the special geometries (nanometre cells: D/h^2 ~ 1e16): boundary coefficients of the order of the
+        # interior rows
+        lam_ = max(float(np.max(a)) for a in D) / min(float(np.min(g.w[k_] * np.min(g.hscale(k_)))) for k_ in range(g.nd)) ** 2
+        lam_ = float(10 ** np.round(np.log10(max(lam_, 1e-300)))) if lam_ > 0 else 1.0
+        for sd_ in spec['sides'].values():
+            for nm_ in ('a', 'b', 'c'):
+                sd_[nm_] = sd_[nm_] * lam_
     BC = gen.make_bc(pf, m, g, spec)
     for k_ in spec['periodic']:
         # a periodic axis declared by the flag of one side only (either flag suffices; the other side keeps whatever a, b, c it had)
@@ -296,6 +326,7 @@ def plan(tier, seed):
     for ci, cls in enumerate(CLASSES):
         cases = [{'cls': cls, 'seed': [seed, 7, ci, i], 'family': gen.FAMILIES[i % 5] if i % 3 else None} for i in range(per)]
         cases += [{'cls': cls, 'seed': [seed, 7, ci, 200000 + i], 'family': gen.FAMILIES[i % 5] if i % 2 else None, 'tunit': True} for i in range(per // 4)]
+        cases += [{'cls': cls, 'seed': [seed, 7, ci, 400000 + i], 'family': None, 'geo': ['nano', 'offset', 'wild', 'negative', 'int', 'thinend', 'jitter', 'offset'][i % 8]} for i in range(per // 2)]
         if cls in ('Grid1D', 'Grid2D', 'Grid3D'):
             cases += [{'cls': cls, 'seed': [seed, 7, ci, 300000 + i], 'family': gen.FAMILIES[i % 5] if i % 2 else None, 'intflow': True}
                       for i in range(per // (2 if cls == 'Grid1D' else 6))]
@@ -313,7 +344,7 @@ def floors(agg, tier):
         if agg['cov'].get('cases:' + cls, 0) < 20:
             out.append('cases:%s < 20' % cls)
     for k, need in (('bc:D', 50), ('bc:N0', 50), ('bc:periodic', 20), ('flow:uniform', 3), ('flow:radial', 3), ('flow:stream-walls', 10),
-                    ('flow:stream-open', 5), ('flow:axis', 10), ('terms:D', 10), ('terms:D+upwind', 10), ('extremal_dt_steps', 50), ('steps', 300), ('thin_grid', 50), ('flow:uniform-int', 5), ('periodic_flag:low', 10), ('periodic_flag:high', 10), ('time_unit:small', 30), ('time_unit:large', 20), ('value_edit_between_steps', 50),
+                    ('flow:stream-open', 5), ('flow:axis', 10), ('terms:D', 10), ('terms:D+upwind', 10), ('extremal_dt_steps', 50), ('steps', 300), ('thin_grid', 50), ('geo:nano', 10), ('geo:offset', 20), ('geo:thinend', 10), ('flow:uniform-int', 5), ('periodic_flag:low', 10), ('periodic_flag:high', 10), ('time_unit:small', 30), ('time_unit:large', 20), ('value_edit_between_steps', 50),
                     ('bc_edit_between_steps:left', 5), ('bc_edit_between_steps:right', 5), ('bc_edit_between_steps:bottom', 5), ('bc_edit_between_steps:top', 5),
                     ('bc_edit_between_steps:back', 3), ('bc_edit_between_steps:front', 3)):
         if agg['cov'].get(k, 0) < need:
